@@ -42,7 +42,13 @@ def gen_ops(root, work, seed, count):
     exe = os.path.join(root, "harness/target/debug/gharness")
     with open(path, "w") as f:
         p = subprocess.run([exe, "gen", "--seed", str(seed), "--count", str(count), "--malformed", "3", "--hist", "20"], stdout=f, stderr=subprocess.PIPE, text=True)
-    return (path, "") if p.returncode == 0 else (None, p.stderr[-800:])
+    if p.returncode != 0:
+        return None, p.stderr[-800:]
+    # the generator marks out-of-domain (malformed-stream) lines with a leading `!`; C20 compares configurations line by line,
+    # for which the marker is irrelevant
+    txt = open(path).read()
+    open(path, "w").write("\n".join(l[1:] if l.startswith("!") else l for l in txt.split("\n")))
+    return path, ""
 
 
 def needs(line):
